@@ -32,6 +32,23 @@ def run_routing(env, rng, out, classes):
       return {'delay': rng.choice([0.0005, 0.001, 0.002, 0.01]) * (1 + rng.random())}
   broker = servers.KafkaBroker(net, 'kb', port, Policy())
   tp = KafkaTransportSink.Builder()
+  if rng.random() < 0.3:
+    # a socket whose send() takes only part of a buffer: every request must still arrive whole
+    broker.sim.send_limit = rng.choice([1, 3, 17, 64])
+    classes.add('routing:short-sends')
+  if rng.random() < 0.25:
+    # the transport driven over a plain ScalesSocket (no metrics wrapper), as a caller assembling
+    # the sinks by hand would: its own read/write loops carry the frames
+    from scales.scales_socket import ScalesSocket
+
+    class BareProvider(object):
+      Role = None
+
+      def CreateSink(self, props):
+        e_ = props[SinkProperties.Endpoint]
+        return KafkaTransportSink(ScalesSocket(e_.host, e_.port), props[SinkProperties.Label])
+    tp = BareProvider()
+    classes.add('routing:bare-socket')
   sp = KafkaSerializerSink.Builder()
   sp.next_provider = tp
   pid = rng.randint(0, 9)
